@@ -14,7 +14,7 @@ from ipaddress import (
     ip_network,
 )
 from typing import Protocol
-from urllib.parse import urlparse
+from urllib.parse import unquote, urlparse
 
 
 class Middleware(Protocol):
@@ -346,9 +346,22 @@ class CertificateAuth:
         """
         try:
             parsed = urlparse(request_url)
-            return parsed.path or "/"
+            path = parsed.path or "/"
         except Exception:
             return "/"
+
+        # Rules apply to the location the path denotes, not to its spelling:
+        # decode percent-escapes and remove empty, "." and ".." segments
+        segments: list[str] = []
+        for segment in unquote(path).split("/"):
+            if segment in ("", "."):
+                continue
+            if segment == "..":
+                if segments:
+                    segments.pop()
+                continue
+            segments.append(segment)
+        return "/" + "/".join(segments)
 
     def _find_matching_rule(self, path: str) -> CertificateAuthPathRule | None:
         """Find the first matching path rule.
@@ -360,7 +373,8 @@ class CertificateAuth:
             The first matching rule, or None if no rule matches.
         """
         for rule in self.config.path_rules:
-            if path.startswith(rule.prefix):
+            # "/app" is the directory the prefix "/app/" protects
+            if path.startswith(rule.prefix) or (path + "/").startswith(rule.prefix):
                 return rule
         return None
 
